@@ -4,6 +4,7 @@
 package pmm
 
 import (
+	"os"
 	"math/rand"
 	"runtime"
 	gosync "sync"
@@ -137,8 +138,8 @@ func TestVerifC09(t *testing.T) {
 		case <-time.After(240 * time.Second):
 			out.Mon(c.id, "c09:hang", "callers=%d iters=%d seed=%d pools=%v did not finish within 240s: a call blocks forever", callers, iters, seed, ranges)
 			out.Obs(c.id, []uint64{0})
-			out.Flush()
-			return
+			out.Close()
+			os.Exit(3) // spinning goroutines cannot be preempted: end the process explicitly
 		}
 		if dupes != 0 {
 			out.Mon(c.id, "c09:frame-held-twice", "%d allocations returned a frame another caller still held (callers=%d iters=%d seed=%d pools=%v)", dupes, callers, iters, seed, ranges)
